@@ -110,6 +110,14 @@ class Phrases(Sub):
                     if not is_now:
                         s2 = base.diff_for_humans(other, absolute=absolute, locale=loc)
                         req(s2 == s, "diff_for_humans(other) differs from format_diff of the same interval", got=s2, expected=s)
+                        pendulum.set_locale(loc)
+                        try:
+                            s3 = base.diff_for_humans(other, absolute=absolute)
+                            s4 = iv.in_words()
+                        finally:
+                            pendulum.set_locale("en")
+                        req(s3 == s, f"diff_for_humans under set_locale({loc!r}) differs from locale={loc!r}", got=s3, expected=s)
+                        req(s4 == iv.in_words(locale=loc), f"in_words under set_locale({loc!r}) differs from locale={loc!r}", got=s4)
                     n += 1
             if cnt == 0:
                 break
